@@ -47,7 +47,8 @@ CONSTANTS AllowLate, AllowLateAcrossKu,   \* network reordering of application d
           Splits,          \* ClientHello CRYPTO splits: set of sequences (orders of piece indices), e.g. {<<1>>,<<2,1>>}
           MaxApp, MaxGen, AllowEarlyGuess, Retries, ZeroRtts, EmitOn,
           NoisePhases,     \* subset of {"same","flip"}: unmasked key-phase bit of an undecryptable short-header datagram relative to the sender's
-          AllowRetx        \* the client retransmits an Initial packet of its ClientHello flight (new packet number, same CRYPTO frames)
+          AllowRetx,       \* the client retransmits an Initial packet of its ClientHello flight (new packet number, same CRYPTO frames)
+          ExtraShapes      \* further application-phase datagram shapes (subset of LateShapes below)
 
 Dir == {"c", "s"}
 Other(d) == IF d = "c" THEN "s" ELSE "c"
@@ -211,6 +212,10 @@ Shapes == { <<<<"stream">>>>, <<<<"ack", "stream", "pad">>>>, <<<<"stream", "pin
             <<<<"stream", "fin0">>>>,      \* fin0: a STREAM frame of length 0 that only carries FIN (closes a stream after its last data)
             <<<<"fin0", "ack">>>>,         \* ... alone in its datagram: nothing to export
             <<<<"nst">>>> }                \* nst: a post-handshake CRYPTO frame in a 1-RTT packet (NewSessionTicket): never exported without -a
+\* what else travels in the application phase: a late Handshake / Initial packet that only acknowledges (its keys are still installed -- nothing
+\* discards them) coalesced IN FRONT of the 1-RTT packet, and CONNECTION_CLOSE, behind which the peer's data still in flight keeps arriving
+LateShapes == { <<<<"hsack">>, <<"stream">>>>, <<<<"inack">>, <<"ack", "stream">>>>, <<<<"close">>>>, <<<<"stream", "close">>>> }
+AllShapes == Shapes \cup ExtraShapes
 \* (a short-header packet has no length field and is always the last packet of its datagram: one 1-RTT packet each)
 RECURSIVE MkFrames(_, _, _)
 MkFrames(kinds, i, id) ==
@@ -221,13 +226,15 @@ NStream(kinds) == Len(SelectSeq(kinds, LAMBDA k : k = "stream"))
 RECURSIVE MkPkts(_, _, _, _)
 MkPkts(shape, i, d, id) ==
   IF i > Len(shape) THEN <<>>
+  ELSE IF shape[i] = <<"hsack">> THEN <<P("H", d, 0, <<F("other", "ack", 0)>>)>> \o MkPkts(shape, i + 1, d, id)
+  ELSE IF shape[i] = <<"inack">> THEN <<P("I", d, 0, <<F("other", "ack", 0)>>)>> \o MkPkts(shape, i + 1, d, id)
   ELSE <<P("A", d, sgen[d], MkFrames(shape[i], 1, id))>> \o MkPkts(shape, i + 1, d, id + NStream(shape[i]))
 RECURSIVE TotalStream(_, _)
 TotalStream(shape, i) == IF i > Len(shape) THEN 0 ELSE NStream(shape[i]) + TotalStream(shape, i + 1)
 
 AppDatagram ==
   /\ pc = 6 /\ nApp < MaxApp
-  /\ \E d \in Dir, shape \in Shapes :
+  /\ \E d \in Dir, shape \in AllShapes :
        /\ Send(d, MkPkts(shape, 1, d, nextId))
        /\ nextId' = nextId + TotalStream(shape, 1)
        \* the peer has now seen a packet of generation sgen[d]: it may follow / initiate
